@@ -14,7 +14,7 @@ private def it0 : Iter := { gap := [], s0 := [], s1 := [], s2 := [], s3 := [], s
 
 def cfgOld : Cfg :=
   { retries := 3, dieAfter := false, prods := [⟨0, true, false⟩], pre := [],
-    guardNone := false, killOnSuicidePoll := false }
+    guardNone := false, killOnSuicidePoll := false, killAfterLaunch := false }
 
 /-- engine.py 1890 before the repair: the task generator raises on every launch after the producers
 finished (8 polls): `my_process.returncode` on `None`, the action dies before the bookkeeping, no retry is
@@ -37,7 +37,7 @@ theorem old_kill_delay_between_polls_never_stops :
 
 def cfgZero : Cfg :=
   { retries := 0, dieAfter := false, prods := [⟨0, true, true⟩], pre := [],
-    guardNone := true, killOnSuicidePoll := true }
+    guardNone := true, killOnSuicidePoll := true, killAfterLaunch := true }
 
 /-- `repeatRetries: 0`: new output and the notification land between the output check and the
 producers-done sample of a poll: that poll does not launch, finds no retries left and stops; the only launch
@@ -69,14 +69,14 @@ theorem two_producers_one_silent_never_consumes :
     s.cause = some .retries ∧ s.consume = false ∧ s.hasOutput = true ∧ s.pc = .stopped ∧ s.execLog = [] := by
   decide
 
-/-- the code that exists (repaired or not): `kill-after-producers-done-delay` expires between the `_suicide` check at
+/-- the code before the third repair (fixes/C13-kill-delay-expires-before-launch.diff): `kill-after-producers-done-delay` expires between the `_suicide` check at
 the start of a poll and the launch of that poll (the engine has launched before, so `suicide()` only signals the OLD,
 finished task); the task launched now never ends by itself: nobody kills it, the engine thread waits for ever, the
 cancel event is never set - however many further steps the engine thread is given.  Excluded by hypothesis `hw` of
-`kill_delay_expiry_stops_partial`. -/
+`kill_delay_expiry_stops_partial`; impossible with the repair (`kill_delay_expiry_stops`). -/
 def cfgRace : Cfg :=
   { retries := 3, dieAfter := true, prods := [⟨0, true, false⟩], pre := [0], guardNone := true,
-    killOnSuicidePoll := true }
+    killOnSuicidePoll := true, killAfterLaunch := false }
 
 def histRace : List Op :=
   [.eng .ok, .eng .ok, .eng .ok, .eng .ok, .eng .ok, .eng .ok,      -- one whole poll, a task ran and ended
